@@ -155,10 +155,17 @@ N_Publish(recs) ==
       bad == {recs[i].v : i \in {j \in 1..Len(recs) : recs[j].big}}
       base == Len(log[l])
       new == [i \in 1..Len(okr) |-> [e |-> meta.lepoch, v |-> okr[i].v]]
-      q == pend[l] \o [i \in 1..Len(okr) |-> [off |-> base + i - 1, pol |-> okr[i].pol, v |-> okr[i].v]]
+      \* replication factor 1 (fast path): messages that do not ask for an ALL ack are not queued for
+      \* the commit loop, and a batch without any ALL message moves the HW to its last offset at once
+      \* (whatever the minimum ISR is); ALL messages take the normal route
+      fast == Cardinality(R) = 1
+      ents == [i \in 1..Len(okr) |-> [off |-> base + i - 1, pol |-> okr[i].pol, v |-> okr[i].v]]
+      q == pend[l] \o (IF fast THEN SelectSeq(ents, LAMBDA x : x.pol = "ALL") ELSE ents)
       io == IF l \in DOMAIN isrOff[l]
             THEN [isrOff[l] EXCEPT ![l] = Max2(@, base + Len(okr) - 1)] ELSE isrOff[l]
-      cr == CommitRun(io, q, hw[l], [NewestAll EXCEPT ![l] = base + Len(okr) - 1])
+      cr0 == CommitRun(io, q, hw[l], [NewestAll EXCEPT ![l] = base + Len(okr) - 1])
+      cr == IF fast /\ \A i \in 1..Len(okr) : okr[i].pol # "ALL"
+            THEN <<Max2(cr0[1], base + Len(okr) - 1), cr0[2], cr0[3], cr0[4]>> ELSE cr0
       lacks == {[v |-> okr[i].v, off |-> base + i - 1, pol |-> "LEADER"] : i \in {j \in 1..Len(okr) : okr[j].pol = "LEADER"}}
   IN IF okr = <<>>
      THEN [Cur EXCEPT !.obs = [acks |-> {}, nacks |-> bad], !.nacked = nacked \cup bad]
@@ -198,6 +205,27 @@ N_Fetch(f, late) ==
                  !.hw = [hw EXCEPT ![l] = cr[1], ![f] = Max2(@, sent)],    \* HW adopted before the append
                  !.log = [log EXCEPT ![f] = @ \o data],
                  !.ec = [ec EXCEPT ![f] = AssignFrom(@, data, req + 1)],
+                 !.obs = [acks |-> cr[3], nacks |-> {}],
+                 !.taint = taint \cup cr[4]]
+
+\* ---- a replication round trip whose response is lost: the leader handled the request
+\* (recorded the offset the follower REPORTED, ran the commit loop, sent data), the
+\* follower process died after receiving the response and before storing anything.
+\* What the leader has sent never counts as stored.
+G_FetchLost(f) == G_Fetch(f)
+N_FetchLost(f) ==
+  LET l == Leader
+      req == Newest(f)
+      io == IF f \in DOMAIN isrOff[l] THEN [isrOff[l] EXCEPT ![f] = Max2(@, req)] ELSE isrOff[l]
+      cr == CommitRun(io, pend[l], hw[l], NewestAll)
+      atEnd == req >= Newest(l)
+  IN [Cur EXCEPT !.isrOff = [isrOff EXCEPT ![l] = io],
+                 !.pend = [pend EXCEPT ![l] = cr[2], ![f] = <<>>],
+                 !.caught = [caught EXCEPT ![f] = IF atEnd THEN TRUE ELSE @],
+                 !.hw = [hw EXCEPT ![l] = cr[1], ![f] = hwDisk[f]],
+                 !.up = [up EXCEPT ![f] = FALSE],
+                 !.role = [role EXCEPT ![f] = "none"],
+                 !.lagging = lagging \ {f},
                  !.obs = [acks |-> cr[3], nacks |-> {}],
                  !.taint = taint \cup cr[4]]
 
@@ -357,6 +385,7 @@ DoPauseResume == G_PauseResume /\ Step(N_PauseResume)
 DoPublish(recs) == G_Publish(recs) /\ Step(N_Publish(recs))
 DoPublishRejected(v) == G_PublishRejected(v) /\ Step(N_PublishRejected(v))
 DoFetch(f, late) == G_Fetch(f) /\ Step(N_Fetch(f, late))
+DoFetchLost(f) == G_FetchLost(f) /\ Step(N_FetchLost(f))
 DoLagExpire(f) == G_LagExpire(f) /\ Step(N_LagExpire(f))
 DoShrink(f) == G_Shrink(f) /\ Step(N_Shrink(f))
 DoExpand(f) == G_Expand(f) /\ Step(N_Expand(f))
